@@ -316,7 +316,11 @@ impl Consume for SenderFlowState {
         loop {
             match consume_link_credit(&self.state().lock, item) {
                 Ok(outcome) => return outcome,
-                Err(_) => self.notifier.notified().await, // **NOT** cancel safe
+                Err(_) => {
+                    #[cfg(fe2o3_amqp_verif)]
+                    crate::verif_facade::schedule_point();
+                    self.notifier.notified().await // **NOT** cancel safe
+                }
             }
         }
     }
